@@ -344,10 +344,24 @@ def run_property(mod, tier, seed, replay=None):
                 for i, c in enumerate(sel):
                     fu = mod.followup(c, ans[i] if i < len(ans) else "abort")
                     if fu:
-                        fus.append((c, fu[0], fu[1]))
+                        for one in (fu if isinstance(fu, list) else [fu]):
+                            fus.append((c, one[0], one[1]))
                 if fus:
                     drv = Server([driver_bin()], default_timeout=120.0)
                     out = drv.ask([l for _, l, _ in fus])
+                    # expected answer None: the follow-up request is also answered by the harness
+                    need = [i for i, (_, _, exp) in enumerate(fus) if exp is None]
+                    if need:
+                        hsrv = Server([harness_bin(pr), "--flush"], default_timeout=getattr(mod, "TIMEOUT", 20.0))
+                        hout = hsrv.ask([fus[i][1] for i in need])
+                        for i, a2 in zip(need, hout):
+                            fus[i] = (fus[i][0], fus[i][1], a2)
+                            if hasattr(mod, "followup_oracle"):
+                                msg = mod.followup_oracle(fus[i][0], fus[i][1], a2)
+                                stats["o_checked"] += 1
+                                if msg:
+                                    stats["o_fail"] += 1
+                                    o_failures.append((pr, Case(fus[i][1]), a2, msg))
                     for (c, l, exp), m in zip(fus, out):
                         stats["k_compared"] += 1
                         if m == exp:
